@@ -335,7 +335,12 @@ func (in *Interp) perform(c selCase) (value, bool) {
 
 // doSelect runs a select over cases; returns chosen index (-1 default), received value, ok.
 func (in *Interp) doSelect(cases []selCase, blocking bool) (int, value, bool) {
+	pending := in.spPending
 	in.yield()
+	pre := -1
+	if pending && len(in.spTrace) > 0 {
+		pre = len(in.spTrace) - 1 // yield has just recorded this operation's "before" scheduling point
+	}
 	me := in.sched.cur
 	for {
 		var ready []int
@@ -348,6 +353,10 @@ func (in *Interp) doSelect(cases []selCase, blocking bool) (int, value, bool) {
 			k := ready[0]
 			if len(ready) > 1 {
 				k = ready[in.choose(len(ready), "select")]
+				if pre >= 0 {
+					// the native choice is random: a replay with "force_select" takes this case
+					in.selTrace = append(in.selTrace, [2]int{pre, k})
+				}
 			}
 			v, ok := in.perform(cases[k])
 			return k, v, ok
